@@ -15,7 +15,7 @@ NUMS = [-5, -1, 0, 1, 2, 7, 100]
 TAGS = [u"alpha", u"beta", u"delta", u"gamma", u"zeta"]
 WHENS = [datetime.datetime(1999, 1, 1), datetime.datetime(2000, 1, 1), datetime.datetime(2000, 1, 1, 0, 0, 1),
          datetime.datetime(2024, 2, 29)]
-MULTI = [u"m1", u"m2", u"m3"]
+MULTI = [u"m1", u"m2", u"m3", u"m4", u"m5", u"m6", u"m7"]
 FIELDS = {"num": NUMS, "numnc": NUMS, "tag": TAGS, "tagnc": TAGS, "when": WHENS, "flag": [False, True], "multi": MULTI,
           "st": TAGS}
 # queries inside query facets (fuzzy matching has its own recorded finding under C01/C19 and is left to them)
@@ -68,7 +68,7 @@ def rand_doc(rng, missing):
     d["k"] = {}
     for f, pool in FIELDS.items():
         if f == "multi":
-            n = rng.choice([0, 1, 1, 2, 3]) if missing else rng.choice([1, 2, 3])
+            n = rng.choice([0, 1, 1, 2, 3, 5]) if missing else rng.choice([1, 2, 3, 4])
             d["k"][f] = sorted(rng.sample(range(1, len(pool) + 1), n))
         elif missing and rng.random() < 0.25:
             d["k"][f] = []
@@ -178,11 +178,16 @@ def observe(s, q, aq, rng, missing):
             obs.append({"kind": "len", "path": "len(sorted results)", "n": len(r)})
         guard("sorted", f)
     # grouping
+    # (fields with and without a column; a reversed facet groups under the same names; of a multi-valued field
+    # without overlap one of the document's values is the key - which one is not said)
     for fn, overlap, stored in (("tag", False, False), ("num", False, False), ("multi", True, False),
-                                ("flag", False, False), ("st", False, True), ("multi", True, True)):
-        def g(fn=fn, overlap=overlap, stored=stored):
+                                ("flag", False, False), ("st", False, True), ("multi", True, True),
+                                ("tagnc", False, False), ("numnc", False, False), ("multi", False, False)):
+        frev = not stored and not overlap and rng.random() < 0.4
+
+        def g(fn=fn, overlap=overlap, stored=stored, frev=frev):
             facet = (sorting.StoredFieldFacet(fn, allow_overlap=overlap) if stored
-                     else sorting.FieldFacet(fn, allow_overlap=overlap))
+                     else sorting.FieldFacet(fn, allow_overlap=overlap, reverse=frev))
             r = s.search(q, limit=2, groupedby={fn: facet})
             groups = r.groups(fn)
             pool = FIELDS[fn]
@@ -202,8 +207,8 @@ def observe(s, q, aq, rng, missing):
                     else:
                         kid = -1
                 out.append([kid, [int(x) for x in dns]])
-            obs.append({"kind": "groups", "path": "groupedby=%s overlap=%s stored=%s" % (fn, overlap, stored), "f": fn,
-                        "overlap": overlap, "groups": out})
+            obs.append({"kind": "groups", "path": "groupedby=%s overlap=%s stored=%s reverse=%s" % (fn, overlap, stored, frev),
+                        "f": "_multi1" if fn == "multi" and not overlap else fn, "overlap": overlap, "groups": out})
         guard("groups:" + fn, g)
     # range and query facets
     rg = rng.choice(RANGES)
@@ -286,16 +291,20 @@ def observe(s, q, aq, rng, missing):
             # which documents of a key are its best: the first in the ranking, or by a separate order facet
             order = [] if missing or rng.random() < 0.5 else [[rng.choice(single), rng.random() < 0.4]]
 
-            def cfn(fn=fn, n=n, k=k, sort=sort, order=order):
+            # ... in the direction asked for, or the whole ranking reversed (search(reverse=True))
+            grev = rng.random() < 0.3
+
+            def cfn(fn=fn, n=n, k=k, sort=sort, order=order, grev=grev):
                 def mk():
-                    kw = {}
+                    kw = {"reverse": True} if grev else {}
                     if sort:
                         kw["sortedby"] = sorting.FieldFacet(sort[0][0], reverse=sort[0][1])
                     if order:
                         kw["collapse_order"] = sorting.FieldFacet(order[0][0], reverse=order[0][1])
                     r = s.search(q, limit=k or None, collapse=fn, collapse_limit=n, **kw)
-                    return {"kind": "collapse", "path": "collapse=%s limit=%d k=%d sortedby=%s collapse_order=%s" % (
-                            fn, n, k, sort, order), "f": fn, "n": n, "k": k, "sort": sort, "order": order,
+                    return {"kind": "collapse", "path": "collapse=%s limit=%d k=%d sortedby=%s collapse_order=%s reverse=%s" % (
+                            fn, n, k, sort, order, grev), "f": fn, "n": n, "k": k, "sort": sort, "order": order,
+                            "grev": grev,
                             "collapsed": int(sum(r.collapsed_counts.values())) if k == 0 else -1,
                             "len": len(r),
                             "docs": [int(h.docnum) for h in r]}
@@ -412,7 +421,8 @@ def check(run):
     cases, meta = [], []
     for wi in range(8 if quick else 80):
         missing = wi % 2 == 1
-        n = rng.randrange(4, 10)
+        # (a few very small indexes: a multi-valued field then has more values than the index has documents)
+        n = rng.randrange(4, 10) if wi % 4 != 3 else rng.randrange(2, 5)
         adocs = dict(("k%d" % i, rand_doc(rng, missing)) for i in range(n))
         plan = world.rand_plan(rng, adocs.keys(), max_segments=3)
         if missing and wi % 4 == 1:
